@@ -11,5 +11,5 @@ class O: harness='$3'
 print(K.drop_cut_unwindset('$S',[O()],$4) or '')
 PY
 )
-(cd $S && timeout ${5:-80} cbmc $F --unwind 10 --object-bits 16 --unwindset "$UW" --verbosity 9 2>&1 | grep -E "Unwinding (loop|recursion)" | sed -E 's/ iteration [0-9]+.*//; s/thread [0-9]+//' | cut -c1-200 | sort | uniq -c | sort -rn | head -${TOP:-14})
+(cd $S && timeout ${5:-80} cbmc $F --unwind ${UNW:-10} --object-bits 16 --unwindset "$UW" --verbosity 9 2>&1 | grep -E "Unwinding (loop|recursion)" | sed -E 's/ iteration [0-9]+.*//; s/thread [0-9]+//' | cut -c1-200 | sort | uniq -c | sort -rn | head -${TOP:-14})
 rm -rf $S
